@@ -144,6 +144,17 @@ func (m *vpMesh) waitAgent(at, target string, d time.Duration) bool {
 	return false
 }
 
+// announce makes every agent announce its local routes (incl. its presence route) now,
+// as the periodic advertise loop would do at its next tick.
+func (m *vpMesh) announce() {
+	m.mu.Lock()
+	order := append([]string(nil), m.order...)
+	m.mu.Unlock()
+	for _, n := range order {
+		m.agents[n].flooder.AnnounceLocalRoutes()
+	}
+}
+
 func (m *vpMesh) id(name string) identity.AgentID { return m.agents[name].ID() }
 
 func (m *vpMesh) nameOf(id identity.AgentID) string {
